@@ -148,9 +148,16 @@ func c05Container(produces []string) *restful.Container {
 	}
 	c := restful.NewContainer()
 	ws := new(restful.WebService).Path("/e")
-	ws.Route(ws.GET("/x").Produces(produces...).To(func(req *restful.Request, resp *restful.Response) {
+	rbx := ws.GET("/x").Produces(produces...).To(func(req *restful.Request, resp *restful.Response) {
 		resp.WriteEntity(c05Ent{"v"})
-	}))
+	})
+	ws.Route(rbx)
+	// the builder of /x is used again for a sibling that produces the same types in reverse order
+	rev := make([]string, len(produces))
+	for i, p := range produces {
+		rev[len(produces)-1-i] = p
+	}
+	ws.Route(rbx.Path("/w").Produces(rev...))
 	// the same entity written onto a response that already carries a Content-Type: set by the
 	// handler itself (/y), added by a filter in front of it (/z)
 	ws.Route(ws.GET("/y").Produces(produces...).To(func(req *restful.Request, resp *restful.Response) {
